@@ -460,7 +460,12 @@ func gen(ctx *core.Ctx) {
 			doSpec := ctx.Thorough || !doEnc
 			o := genOpts(r, algs[r.Intn(len(algs))], cph, 0)
 			if doEnc {
-				must(input{Kind: "enc", Opts: &o, P: encx.PSeq(r.Intn(256), n), Script: encx.GenItems(r, n, styles[(i+ci)%4], 70000, 10),
+				// k*S+1 bytes: the look-ahead byte must arrive together with EOF in some run of every seed
+				st := styles[(i+ci)%4]
+				if n%S == 1 {
+					st = []int{1, 4}[(i+ci)%2]
+				}
+				must(input{Kind: "enc", Opts: &o, P: encx.PSeq(r.Intn(256), n), Script: encx.GenItems(r, n, st, 70000, 10),
 					WfkLen: 32, Seed: r.U64(), Big: true})
 			}
 			if doSpec {
